@@ -26,6 +26,8 @@ def _one(it, thunk, what):
 
 
 def run(ctx, report):
+    from .premises import accessor_entries, stateless_premise
+    stateless_premise(ctx, report, 'R11-P1-stateless', [], extra=lambda prog, eff: accessor_entries(prog, eff, ("schwifty.iban.IBAN", "schwifty.bban.BBAN", "schwifty.bic.BIC"), names=set(COMPONENT_ACCESSORS) | {"country_code", "checksum_digits", "bban", "location_code", "compact"}), stop=(), without_national=True)
     prog = ctx.program
     facts = ctx.facts
     reg = ctx.registry
@@ -79,6 +81,8 @@ def run(ctx, report):
         if a not in comps.values():
             r.finding(f"Component:{a}", f"the component enumeration has no member with value {a!r}", prog.get("schwifty.domain.Component").where)
     bad = 0
+    r_dis = report.rule("R11-disjoint", floor=100, what="fields never overlap: no BBAN position is returned by two different component accessors (decided on the tagged text of every country)")
+    n_overlap = []
     for cc in sorted(reg.countries):
         spec = reg.countries[cc]
         n = spec.get("bban_length")
@@ -97,6 +101,21 @@ def run(ctx, report):
         if res[0] != "ret":
             r.finding(f"accessors[{cc}]", f"reading the components of a {cc} IBAN raises {res[1].name} at {res[1].where}", iban.where, witness=text)
             continue
+        # R11-disjoint: what the accessors actually return on the tagged text (code + data of the tree) never shares a position
+        owner = {}
+        for a in COMPONENT_ACCESSORS:
+            got_i = res[1][a][0]
+            if not isinstance(got_i, str):
+                continue
+            for ch in got_i:
+                i = body.find(ch)
+                if i < 0:
+                    continue
+                if i in owner and owner[i] != a:
+                    n_overlap.append((cc, owner[i], a, i))
+                    break
+                owner[i] = a
+        r_dis.instance({"country": cc, "positions read by some accessor": len(owner), "bban_length": n} if cc in ("DE", "TR") else None)
         for a in COMPONENT_ACCESSORS:
             rng = pos.get(a)
             want = body[rng[0]:rng[1]] if isinstance(rng, list) and len(rng) == 2 else ""
@@ -109,6 +128,10 @@ def run(ctx, report):
                     got = got_i if got_i != want else got_b
                     r.finding(f"{which}.{a}[{cc}]", f"{cc}: {which}.{a} returns positions {_positions(body, got)} of the BBAN; the table publishes "
                               f"{rng if rng else 'no such field'}", (iban if which == 'IBAN' else prog.get('schwifty.bban.BBAN')).where, witness=text)
+
+    for cc, a1, a2, i in n_overlap[:6]:
+        r_dis.finding(f"overlap[{cc}]:{a1}/{a2}", f"{cc}: BBAN position {i} is returned both by {a1} and by {a2}: the fields overlap, so the components do not decompose the BBAN",
+                      f"schwifty/iban_registry: {cc}", witness={"country": cc, "position": i, "components": [a1, a2]})
 
     # ------------------------------------------------------------------ R11-abstract: no value-dependent special case in the accessors
     from ..values import AStr, CharSet, ASCII_DIGITS, ASCII_UPPER
